@@ -60,12 +60,22 @@ func partition(line, delim string) (string, string) {
 
 }
 
+// readLine returns the next line with its newline. The last line of the
+// input may lack one; io.EOF is returned only when nothing is left to read.
+func readLine(reader *bufio.Reader) (string, error) {
+	line, err := reader.ReadString('\n')
+	if err == io.EOF && line != "" {
+		return line + "\n", nil
+	}
+	return line, err
+}
+
 func ParseOne(reader *bufio.Reader) (*ChangelogEntry, error) {
 	changeLog := ChangelogEntry{}
 
 	var header string
 	for {
-		line, err := reader.ReadString('\n')
+		line, err := readLine(reader)
 		if err != nil {
 			return nil, err
 		}
@@ -110,7 +120,12 @@ func ParseOne(reader *bufio.Reader) (*ChangelogEntry, error) {
 	var signoff string
 	/* OK, we've got the header. Let's zip down. */
 	for {
-		line, err := reader.ReadString('\n')
+		line, err := readLine(reader)
+		if err == io.EOF {
+			/* The entry has started: running out of input now is not
+			 * the end of the changelog. */
+			return nil, io.ErrUnexpectedEOF
+		}
 		if err != nil {
 			return nil, err
 		}
